@@ -14,58 +14,7 @@
 (* Operational part: Proj (the selected sub-context, what get computes),   *)
 (* groups keyed by it in arrival order, one action per fill.               *)
 (***************************************************************************)
-EXTENDS Integers, Sequences, FiniteSets, TLC, Json, IOUtils, SequencesExt
-
-\* contexts as in Selectors.tla
-Dict(m) == [k |-> "D", m |-> m]
-LInt(n, v) == [k |-> "L", t |-> "int", n |-> n, v |-> v]
-Empty == Dict(<<>>)
-Absent == [k |-> "A"]
-IsDict(c) == c.k = "D"
-
-(***************************************************************************)
-(* Declarative part.                                                       *)
-(***************************************************************************)
-PrefixOf(q, p) == Len(q) <= Len(p) /\ q = SubSeq(p, 1, Len(q))
-\* the longest prefix of path p listed in group_by (G) or merge (M); the empty path is always listed
-Owner(p, G, M) == CHOOSE q \in G \cup M : /\ PrefixOf(q, p)
-                                          /\ \A q2 \in G \cup M : PrefixOf(q2, p) => Len(q2) <= Len(q)
-\* "the longest listed prefix is a group_by entry", computed by shortening the path (OwnerIsLongest
-\* below checks that this is the same thing)
-RECURSIVE SelectedUpTo(_, _, _, _)
-SelectedUpTo(p, n, G, M) == LET q == SubSeq(p, 1, n) IN
-                            IF q \in G THEN TRUE ELSE IF q \in M THEN FALSE ELSE SelectedUpTo(p, n - 1, G, M)
-Selected(p, G, M) == SelectedUpTo(p, Len(p), G, M)
-\* what a context holds at a path: Absent, "a dictionary", or the leaf
-RECURSIVE AtFrom(_, _, _)
-AtFrom(cur, p, i) == IF i > Len(p) THEN (IF IsDict(cur) THEN [k |-> "D"] ELSE cur)
-                     ELSE IF ~IsDict(cur) THEN Absent
-                     ELSE IF p[i] \notin DOMAIN cur.m THEN Absent
-                     ELSE AtFrom(cur.m[p[i]], p, i + 1)
-At(c, p) == AtFrom(c, p, 1)
-\* all key paths present in a context
-RECURSIVE PathsFrom(_, _)
-PathsFrom(cur, pre) == IF ~IsDict(cur) THEN {}
-                       ELSE UNION {{Append(pre, key)} \cup PathsFrom(cur.m[key], Append(pre, key)) : key \in DOMAIN cur.m}
-Paths(c) == PathsFrom(c, <<>>)
-Agree(c1, c2, p) == At(c1, p) = At(c2, p)
-\* C15: two values share a group exactly when their contexts agree on every key path whose longest
-\* prefix listed in group_by or merge is a group_by entry (paths absent from both agree trivially)
-SameGroup(c1, c2, G, M) == \A p \in Paths(c1) \cup Paths(c2) : Selected(p, G, M) => Agree(c1, c2, p)
-\* the same relation in canonical form: what a context holds on its selected paths
-Sig(c, G, M) == {<<p, At(c, p)>> : p \in {q \in Paths(c) : Selected(q, G, M)}}
-
-(***************************************************************************)
-(* Operational part: the selected sub-context (IncludeExcludeTree.get).    *)
-(* A key is kept when its path is selected, or - as a path to them - when  *)
-(* something below it is.                                                  *)
-(***************************************************************************)
-RECURSIVE ProjFrom(_, _, _, _)
-ProjFrom(cur, pre, G, M) ==
-  LET sub(key) == ProjFrom(cur.m[key], Append(pre, key), G, M)
-      keep(key) == Selected(Append(pre, key), G, M) \/ (IsDict(cur.m[key]) /\ sub(key).m # <<>>)
-  IN Dict([key \in {x \in DOMAIN cur.m : keep(x)} |-> IF IsDict(cur.m[key]) THEN sub(key) ELSE cur.m[key]])
-Proj(c, G, M) == ProjFrom(c, <<>>, G, M)
+EXTENDS GroupBySem, IOUtils, SequencesExt
 
 (***************************************************************************)
 (* Universes.                                                              *)
